@@ -324,9 +324,9 @@ var schemeLists = append(append([][]string{}, matchingSchemeLists...), foreignSc
 
 func genSelCase(t *rapid.T) selCase {
 	c := selCase{
-		RngSeed:     rapid.Int64Range(1, 1<<40).Draw(t, "rng_seed"),
-		Draws:       20000,
-		Grid:        2000,
+		RngSeed: rapid.Int64Range(1, 1<<40).Draw(t, "rng_seed"),
+		Draws:   20000,
+		Grid:    2000,
 	}
 	genAnnouncements(t, &c, weightPool)
 	return c
